@@ -1,4 +1,5 @@
 import MJ.Proofs.Kernels
+import MJ.Proofs.Stk
 import MJ.Model.CallGraph
 import MJ.Props.C09
 /-!
@@ -442,6 +443,84 @@ theorem kernels_never_panic : KernelsNeverPanic :=
   ⟨fun _ xs a b c ha hb hc hl => slice_no_panic xs a b c ha hb hc hl, range_no_panic, cycle_no_panic,
    mulStr_no_panic, repeatSeq_no_panic, indent_no_panic, tojsonIndent_no_panic, fmtWidth_no_panic,
    fmtPrecision_no_panic, batch_no_panic, sliceF_no_panic, lexErr_no_panic⟩
+
+/-! ## Operand stack of the VM (`no_underflow`): a verified certificate checker
+
+`MJ/Model/Stk.lean` is the machine of one `eval_impl` activation reduced to its operand stack (and
+the live loops); `Stk.pre i s` is the condition under which the Rust code of instruction `i` does not
+panic on the stack (`pop`/`peek` `unwrap`, `len - n` in `get_call_args`/`drop_top`/`reverse_top`,
+the dynamic argument count `try_into::<usize>().unwrap()`, `args[0]`, `try_iter().unwrap()` in
+`build_macro`).  The check runs the *verified* checker on the certificate proposed by the untrusted
+`inferStk` for every instruction stream the real compiler produces (translation validation): the
+code generator itself is not modelled. -/
+
+/-- in every state reachable from a region entry (pc 0 on an empty stack, a macro body on its
+    arguments) — all branches, all iteration counts, all `loop(…)` recursion depths, whatever values
+    the instructions push — the instruction about to execute finds what it pops -/
+def NoUnderflow (code : Stk.Code) : Prop :=
+  ∀ s0, Stk.Init code s0 → ∀ s, Stk.Reach code s0 s → ∀ i, code[s.pc]? = some i → Stk.pre i s = true
+
+/-- soundness of the operand-stack certificate checker -/
+theorem checkStk_sound (code : Stk.Code) (cert : Stk.Cert) (h : Stk.checkStk code cert = true) :
+    NoUnderflow code := by
+  intro s0 h0 s hr i hi
+  exact Stk.inv_pre h (Stk.reach_inv h (Stk.init_inv h h0) hr) hi
+
+/-- what `drive_c01` computes for every real stream: the verified checker on the inferred certificate -/
+theorem inferStk_checked (code : Stk.Code) (h : Stk.validate code = true) : NoUnderflow code :=
+  checkStk_sound code (Stk.inferStk code) h
+
+namespace StkExamples
+open Stk Stk.Instr
+
+/-- `{% for item in [u] if item %}…{% endfor %}` as compiled: the count of the filtered items is
+    computed by the loop (`z … sw o add … bd`), the height at the loop head depends on the path -/
+def filteredLoop : Code := #[
+  loadZero, eff 0 1, buildList 1, pushLoop false, iterate 15, dupTop, eff 1 0, eff 0 1, jumpIfFalse 13,
+  swap, loadOne, add, jump 14, eff 1 0, jump 4, popLoopFrame, buildDyn, pushLoop false, iterate 22,
+  eff 1 0, eff 0 0, jump 18, popLoopFrame]
+
+/-- `{% for x in xs recursive %}…{{ loop(range(3)) }}…{% endfor %}`: `call 1 … ; fastRecurse` -/
+def recursiveLoop : Code := #[
+  eff 0 1, pushLoop true, iterate 16, eff 1 0, eff 0 1, eff 1 1, eff 1 0, eff 0 1, eff 1 1, eff 0 1,
+  eff 2 1, jumpIfFalse 15, eff 0 1, call 1 false true, fastRecurse, jump 2, popLoopFrame]
+
+/-- `{{ loop.cycle(*xs) }}`: receiver and splat are unpacked into a counted segment (`ul 2`), the
+    method call takes its argument count from the stack and needs at least the receiver -/
+def splatMethod : Code := #[
+  eff 0 1, pushLoop false, iterate 14, eff 1 0, eff 0 1, buildList 1, eff 0 1, unpackLists 2,
+  callDyn true false, eff 1 0, eff 0 1, eff 1 1, eff 1 0, jump 2, popLoopFrame]
+
+/-- the `do` statement before commit e48bfbb: the result of the call stays on the stack in one branch -/
+def doLeak : Code := #[eff 0 1, jumpIfFalse 5, call 0 false true, eff 0 0, jump 6, eff 0 0, eff 0 0]
+
+/-- a method call on a splat without the receiver batch: `args[0]` may not exist -/
+def splatNoReceiver : Code := #[eff 0 1, unpackLists 1, callDyn true false, eff 1 0]
+
+/-- pops one value more than was pushed -/
+def popTooMuch : Code := #[eff 0 1, eff 1 0, eff 1 0]
+
+example : validate filteredLoop = true := by decide
+example : validate recursiveLoop = true := by decide
+example : validate splatMethod = true := by decide
+example : validate doLeak = false := by decide
+example : validate splatNoReceiver = false := by decide
+example : validate popTooMuch = false := by decide
+example : NoUnderflow filteredLoop := inferStk_checked _ (by decide)
+example : NoUnderflow recursiveLoop := inferStk_checked _ (by decide)
+
+/-- the checker is not vacuous: the rejected stream really underflows -/
+theorem popTooMuch_underflows : ¬ NoUnderflow popTooMuch := by
+  intro h
+  have s0 : Init popTooMuch ⟨0, [], [], []⟩ := ⟨(0, 0), by decide, rfl, rfl, rfl, rfl⟩
+  have r1 : Reach popTooMuch ⟨0, [], [], []⟩ ⟨1, [.other], [], []⟩ :=
+    .tail (.refl _) (Step.straight (i := eff 0 1) (by decide) (by decide) (StkStep.eff 0 1 [] [.other] rfl))
+  have r2 : Reach popTooMuch ⟨0, [], [], []⟩ ⟨2, [], [], []⟩ :=
+    .tail r1 (Step.straight (i := eff 1 0) (by decide) (by decide) (StkStep.eff 1 0 [.other] [] rfl))
+  have := h _ s0 _ r2 (eff 1 0) (by decide)
+  simp [pre] at this
+
+end StkExamples
 
 /-! ## Parser call graph -/
 
